@@ -30,7 +30,7 @@ Lemma post3_finish {S} d (m : step S) (PN PB : S -> Prop) (PR : Z -> S -> Prop) 
 Proof. destruct m; simpl; auto. Qed.
 
 Lemma post3_call {A S} (m : step A) (k : Z -> A -> step S) (P : Z -> A -> Prop) PN PB PR :
-  post3 m (P 0) (P 0) P -> (forall c a, P c a -> post3 (k c a) PN PB PR) ->
+  post3 m (fun _ => False) (fun _ => False) P -> (forall c a, P c a -> post3 (k c a) PN PB PR) ->
   post3 (call m k) PN PB PR.
 Proof. intros H K; destruct m; simpl in *; auto; contradiction. Qed.
 
@@ -292,6 +292,303 @@ Lemma coord2cell_pinned_unsafe_huge :
   coord2cell F64 false 3 3 0%float 0%float 1%float 1 [0x1p+1000; 1]%float [0] = Fail CastRange.
 Proof. vm_compute. reflexivity. Qed.
 (* and an (n,1) array read as (n,2) runs past the end: here 5 values for nval = 5 *)
-Lemma coord2cell_pinned_unsafe_shape :
+Lemma coord2cell_needs_two_columns :
   coord2cell F64 true 3 3 0%float 0%float 1%float 5 [0; 0; 0; 0; 0]%float [0; 0; 0; 0; 0] = Fail (OOB "xycoords" 5).
 Proof. vm_compute. reflexivity. Qed.
+
+(* ================================================================== *)
+(* c_neighbours / c_downstream / c_upstream                             *)
+
+Definition cgood (ntot c : Z) : Prop := c = -1 \/ 0 <= c < ntot.      (* a neighbour slot *)
+Definition dgood (ntot d : Z) : Prop := d = -2 \/ d = -1 \/ 0 <= d < ntot.   (* a downstream answer *)
+
+Lemma nb_body_post nrows ncols nx0 ny0 nb :
+  0 <= nrows -> 0 <= ncols -> nrows * ncols <= MAX64 ->
+  Zlen nb = 9 -> Forall (cgood (nrows * ncols)) nb ->
+  post3 (nb_body nrows ncols nx0 ny0 nb)
+        (fun nb' => Zlen nb' = 9 /\ Forall (cgood (nrows * ncols)) nb') (fun _ => False)
+        (fun _ _ => False).
+Proof.
+  intros Hr Hc Hg Hl Hf. unfold nb_body.
+  apply (forZ_inv3 (fun nb' => Zlen nb' = 9 /\ Forall (cgood (nrows * ncols)) nb')); auto.
+  intros iy t Hy I1.
+  eapply post3_weaken.
+  { apply (forZ_inv3 (fun nb' => Zlen nb' = 9 /\ Forall (cgood (nrows * ncols)) nb')
+                     (fun _ _ => False)); auto.
+    intros ix u Hx (J1 & J2).
+    destruct ((ix =? 0) && (iy =? 0)).
+    - acc3. cbn. rewrite Zlen_upd. split; auto. apply Forall_upd; auto. left; auto.
+    - destruct ((nx0 + ix <? 0) || (ncols - 1 <? nx0 + ix) || (ny0 + iy <? 0) ||
+                (nrows - 1 <? ny0 + iy)) eqn:E.
+      + acc3. cbn. rewrite Zlen_upd. split; auto. apply Forall_upd; auto. left; auto.
+      + zb. rewrite chk64_ok' by (unfold MAX64 in *; nia). cbn [bindr]. acc3. cbn.
+        rewrite Zlen_upd. split; auto. apply Forall_upd; auto. right. nia. }
+  all: cbn beta; auto; try (intros; contradiction).
+Qed.
+
+Lemma neighbours_post nrows ncols idx nb :
+  0 <= nrows -> 0 <= ncols -> nrows * ncols <= MAX64 ->
+  Zlen nb = 9 -> Forall (cgood (nrows * ncols)) nb ->
+  post3 (neighbours nrows ncols idx nb) (fun _ => False) (fun _ => False)
+        (fun c nb' => Zlen nb' = 9 /\ Forall (cgood (nrows * ncols)) nb' /\
+                      (c = 0 <-> 0 <= idx < nrows * ncols)).
+Proof.
+  intros Hr Hc Hg Hl Hf. unfold neighbours.
+  rewrite chk64_ok' by (unfold MAX64 in *; nia). cbn [bindr].
+  destruct ((idx <? 0) || (nrows * ncols <=? idx)) eqn:E.
+  - apply orb_true_iff in E. cbn. repeat split; auto; intros; destruct E; zb; lia.
+  - zb. assert (0 < ncols) by nia.
+    destruct (getnxy_ok ncols idx ltac:(lia) ltac:(lia)) as (nx & ny & G & _).
+    rewrite G. cbn [bindr]. apply post3_finish.
+    eapply post3_weaken; [apply nb_body_post; auto| | |]; cbn; auto.
+    + intros s (A & B). repeat split; auto; lia.
+    + intros ? [].
+    + intros ? ? [].
+Qed.
+
+Lemma nb_local_good ntot : Zlen nb_local = 9 /\ Forall (cgood ntot) nb_local.
+Proof. unfold nb_local, NEIGHBOURS_SIZE. cbn. split; auto. repeat constructor; left; auto. Qed.
+
+Lemma neighbours_safe : forall nrows ncols idx nb,
+  0 <= nrows -> 0 <= ncols -> nrows * ncols <= MAX64 -> Zlen nb = 9 ->
+  safe (neighbours nrows ncols idx nb).
+Proof.
+  intros nrows ncols idx nb Hr Hc Hg Hl. unfold neighbours.
+  rewrite chk64_ok' by (unfold MAX64 in *; nia). cbn [bindr].
+  destruct ((idx <? 0) || (nrows * ncols <=? idx)) eqn:E; [exact I|].
+  zb. assert (0 < ncols) by nia.
+  destruct (getnxy_ok ncols idx ltac:(lia) ltac:(lia)) as (nx & ny & G & _).
+  rewrite G. cbn [bindr].
+  apply (post3_safe _ (fun _ => False) (fun _ => False) (fun _ _ => True)).
+  apply post3_finish. unfold nb_body.
+  eapply post3_weaken.
+  { apply (forZ_inv3 (fun nb' => Zlen nb' = 9) (fun _ _ => True)); auto.
+    intros iy t Hy I1.
+    eapply post3_weaken.
+    { apply (forZ_inv3 (fun nb' => Zlen nb' = 9) (fun _ _ => True)); auto.
+      intros ix u Hx J1.
+      destruct ((ix =? 0) && (iy =? 0)).
+      - acc3. cbn. now rewrite Zlen_upd.
+      - destruct ((nx + ix <? 0) || (ncols - 1 <? nx + ix) || (ny + iy <? 0) ||
+                  (nrows - 1 <? ny + iy)) eqn:E2.
+        + acc3. cbn. now rewrite Zlen_upd.
+        + zb. rewrite chk64_ok' by (unfold MAX64 in *; nia). cbn [bindr]. acc3. cbn.
+          now rewrite Zlen_upd. }
+    all: cbn beta; auto; try (intros; contradiction). }
+  all: cbn beta; auto; try (intros; contradiction).
+Qed.
+
+(* ---- c_downstream *)
+Lemma downstream_post nrows ncols code flowdir nval idxup idxdown :
+  0 <= nrows -> 0 <= ncols -> nrows * ncols <= MAX64 ->
+  Zlen code = 9 -> Zlen flowdir = nrows * ncols -> Zlen idxup = nval -> Zlen idxdown = nval ->
+  post3 (downstream nrows ncols code flowdir nval idxup idxdown) (fun _ => False) (fun _ => False)
+        (fun c out => Zlen out = nval /\ (c = 0 \/ c = 1) /\
+           (c = 0 -> forall j, 0 <= j < nval ->
+              0 <= nth (Z.to_nat j) idxup 0 < nrows * ncols /\
+              dgood (nrows * ncols) (nth (Z.to_nat j) out 0))).
+Proof.
+  intros Hr Hc Hg Hcd Hfd Hup Hdn. unfold downstream.
+  set (ntot := nrows * ncols) in *.
+  apply post3_finish.
+  pose (Inv := fun (i : Z) (out : list Z) => Zlen out = nval /\
+     forall j, 0 <= j < i -> 0 <= nth (Z.to_nat j) idxup 0 < ntot /\
+                              dgood ntot (nth (Z.to_nat j) out 0)).
+  assert (0 <= nval) by (rewrite <- Hup; apply Zlen_nonneg).
+  eapply post3_weaken.
+  { apply (forZ_post3 Inv (fun _ => False)
+             (fun c out => Zlen out = nval /\ (c = 0 \/ c = 1) /\ (c = 0 -> forall j, 0 <= j < nval ->
+                0 <= nth (Z.to_nat j) idxup 0 < ntot /\ dgood ntot (nth (Z.to_nat j) out 0))));
+      [lia|split; [auto|intros; lia]|].
+    intros i out Hi (I1 & I2).
+    acc3. set (cell := nth (Z.to_nat i) idxup 0).
+    rewrite chk64_ok' by (unfold MAX64, ntot in *; nia). cbn [bindr].
+    destruct ((cell <? 0) || (ntot <=? cell)) eqn:E.
+    { cbn. split; auto. split; auto. intros; discriminate. }
+    zb.
+    destruct (nb_local_good ntot) as (L1 & L2).
+    eapply post3_call; [apply neighbours_post; auto|].
+    intros c nb (N1 & N2 & _).
+    acc3. acc3.
+    destruct (nth (Z.to_nat cell) flowdir 0 =? 0).
+    - rewrite (wr_ok "idxdown") by (rewrite Zlen_upd; lia). cbn.
+      unfold Inv. rewrite !Zlen_upd. split; auto.
+      intros j Hj. destruct (Z.eq_dec j i) as [->|Hne].
+      + rewrite nth_upd_same by (rewrite upd_length; unfold Zlen in I1; lia).
+        split; [fold cell; lia|left; auto].
+      + rewrite !nth_upd_other by lia. apply I2; lia.
+    - eapply post3_weaken.
+      { apply (forZ_inv3 (fun o => Zlen o = nval /\ dgood ntot (nth (Z.to_nat i) o 0) /\
+                            forall j, 0 <= j < i -> 0 <= nth (Z.to_nat j) idxup 0 < ntot /\
+                                                   dgood ntot (nth (Z.to_nat j) o 0))
+                         (fun _ _ => False)).
+        - rewrite Zlen_upd. split; auto. split.
+          + rewrite nth_upd_same by (unfold Zlen in I1; lia). right; left; auto.
+          + intros j Hj. rewrite nth_upd_other by lia. apply I2; lia.
+        - intros k o Hk (J1 & J2 & J3). acc3.
+          destruct (_ =? _); [|cbn; auto].
+          acc3. acc3. cbn. rewrite Zlen_upd. split; auto. split.
+          + rewrite nth_upd_same by (unfold Zlen in J1; lia).
+            assert (G : cgood ntot (nth (Z.to_nat k) nb 0)).
+            { rewrite Forall_forall in N2. apply N2. apply nth_In. unfold Zlen in N1; lia. }
+            destruct G as [->|G]; [right; left; auto|right; right; auto].
+          + intros j Hj. rewrite nth_upd_other by lia. apply J3; lia. }
+      + cbn. intros o (J1 & J2 & J3). unfold Inv. split; auto.
+        intros j Hj. destruct (Z.eq_dec j i) as [->|Hne]; [split; [fold cell; lia|auto]|apply J3; lia].
+      + intros ? [].
+      + intros ? ? []. }
+  - cbn. intros out [(I1 & I2)|[]]. split; auto.
+  - intros ? [].
+  - auto.
+Qed.
+
+Lemma downstream_safe : forall nrows ncols code flowdir nval idxup idxdown,
+  0 <= nrows -> 0 <= ncols -> nrows * ncols <= MAX64 ->
+  Zlen code = 9 -> Zlen flowdir = nrows * ncols -> Zlen idxup = nval -> Zlen idxdown = nval ->
+  safe (downstream nrows ncols code flowdir nval idxup idxdown).
+Proof. intros; eapply post3_safe; apply downstream_post; auto. Qed.
+
+(* one cell through one-element arrays *)
+Lemma down1_post nrows ncols code flowdir c d0 :
+  0 <= nrows -> 0 <= ncols -> nrows * ncols <= MAX64 ->
+  Zlen code = 9 -> Zlen flowdir = nrows * ncols ->
+  post3 (down1 nrows ncols code flowdir c d0)
+        (fun r => (fst r = 0 \/ fst r = 1) /\
+                  (fst r = 0 -> 0 <= c < nrows * ncols /\ dgood (nrows * ncols) (snd r)))
+        (fun _ => False) (fun _ _ => False).
+Proof.
+  intros. unfold down1.
+  eapply post3_call; [apply downstream_post; auto; reflexivity|].
+  cbn. intros rc out (L & B & P). split; auto.
+  intros E. specialize (P E 0 ltac:(lia)). cbn in P. auto.
+Qed.
+
+(* ================================================================== *)
+(* c_accumulate, c_slope                                                *)
+
+Lemma zmod_guard (fx : bool) i nprint :
+  fx = true \/ nprint <> 0 ->
+  exists v, (if fx && (nprint =? 0) then Ok 0 else zmod i nprint) = Ok v.
+Proof.
+  intros H. unfold zmod. destruct (nprint =? 0) eqn:E; zb.
+  - destruct H as [->|H]; [cbn; eauto|lia].
+  - rewrite andb_false_r. eauto.
+Qed.
+
+Lemma accumulate_safe : forall nrows ncols nprint maxacc code flowdir ntoacc nacc,
+  0 <= ncols -> nrows * ncols <= MAX64 ->
+  Zlen code = 9 -> Zlen flowdir = nrows * ncols -> ntoacc = nrows * ncols -> nacc = nrows * ncols ->
+  safe (accumulate true nrows ncols nprint maxacc code flowdir ntoacc nacc).
+Proof.
+  intros nrows ncols nprint maxacc code flowdir ntoacc nacc Hc Hg Hcd Hfd Ht Ha.
+  unfold accumulate.
+  destruct (maxacc <? 1); [exact I|].
+  destruct (nrows <? 1) eqn:E; [exact I|]. zb.
+  rewrite chk64_ok' by (unfold MAX64 in *; nia). cbn [bindr].
+  set (ntot := nrows * ncols) in *.
+  apply (post3_safe _ (fun _ => False) (fun _ => False) (fun _ _ => True)).
+  apply post3_finish. eapply post3_weaken.
+  { apply (forZ_inv3 (fun _ : unit => True) (fun _ _ => True)); auto.
+    intros i u Hi _.
+    destruct (zmod_guard true i nprint ltac:(auto)) as (v & Ev). rewrite Ev. cbn [bindr].
+    eapply (post3_sub _ _ _ (fun _ => True)).
+    - eapply post3_weaken.
+      { apply (for_loop_inv3 (fun s => 0 <= ac_up s < ntot) (fun _ _ => True)); [cbn; lia|].
+        intros j s Hs.
+        eapply post3_call.
+        - eapply post3_weaken; [apply down1_post; auto; lia| | |];
+            cbn beta; [|intros ? []|intros ? ? []].
+          intros r Hr. exact Hr.
+        - cbn beta. intros c [rc d] ((B1 & B2)). cbn [fst snd] in *.
+          destruct (0 <? rc) eqn:E1; [exact I|]. zb.
+          assert (rc = 0) by lia. destruct (B2 H) as (_ & G).
+          destruct (d <? 0) eqn:E2; zb.
+          + acc3. cbn. auto.
+          + acc3. acc3. cbn. destruct G as [G|[G|G]]; lia. }
+      all: cbn beta; auto; try (intros; contradiction).
+    - intros; cbn; auto. }
+  all: cbn beta; auto; try (intros; contradiction).
+Qed.
+
+Lemma accumulate_pinned_unsafe :
+  accumulate false 2 2 0 4 [32; 64; 128; 16; 0; 1; 8; 4; 2] [1; 4; 1; 0] 4 4 = Fail DivZero.
+Proof. vm_compute. reflexivity. Qed.
+
+Lemma slope_safe : forall nrows ncols nprint code flowdir nalt slopeval,
+  0 <= ncols -> nrows * ncols <= MAX64 ->
+  Zlen code = 9 -> Zlen flowdir = nrows * ncols -> nalt = nrows * ncols ->
+  Zlen slopeval = nrows * ncols ->
+  safe (slope true nrows ncols nprint code flowdir nalt slopeval).
+Proof.
+  intros nrows ncols nprint code flowdir nalt slopeval Hc Hg Hcd Hfd Ha Hs.
+  unfold slope.
+  destruct (nrows <? 1) eqn:E; [exact I|]. zb.
+  rewrite chk64_ok' by (unfold MAX64 in *; nia). cbn [bindr].
+  set (ntot := nrows * ncols) in *.
+  apply (post3_safe _ (fun _ => False) (fun _ => False) (fun _ _ => True)).
+  apply post3_finish. eapply post3_weaken.
+  { apply (forZ_inv3 (fun sv => Zlen sv = ntot) (fun _ _ => True)); auto.
+    intros i sv Hi I1.
+    destruct (zmod_guard true i nprint ltac:(auto)) as (v & Ev). rewrite Ev. cbn [bindr].
+    eapply post3_call.
+    - eapply post3_weaken; [apply down1_post; auto; lia| | |];
+        cbn beta; [|intros ? []|intros ? ? []].
+      intros r Hr. exact Hr.
+    - cbn beta. intros c [rc d] ((B1 & B2)). cbn [fst snd] in *.
+      destruct (0 <? rc) eqn:E1; [exact I|]. zb.
+      assert (rc = 0) by lia. destruct (B2 H) as (_ & G).
+      destruct (0 <=? d) eqn:E2; zb; [|cbn; auto].
+      assert (0 <= d < ntot) by (destruct G as [G|[G|G]]; lia).
+      acc3. acc3. acc3. acc3. acc3. acc3. acc3. acc3. cbn. now rewrite Zlen_upd. }
+  all: cbn beta; auto; try (intros; contradiction).
+Qed.
+
+Lemma slope_pinned_unsafe :
+  slope false 2 2 0 [32; 64; 128; 16; 0; 1; 8; 4; 2] [1; 4; 1; 0] 4 [false; false; false; false]
+  = Fail DivZero.
+Proof. vm_compute. reflexivity. Qed.
+
+(* ================================================================== *)
+(* c_cell2rowcol, c_cell2coord                                          *)
+
+Lemma cell2rowcol_safe : forall nrows ncols nval idxcell rowcols,
+  0 <= nrows -> 0 <= ncols -> nrows * ncols <= MAX64 ->
+  Zlen idxcell = nval -> Zlen rowcols = 2 * nval ->
+  safe (cell2rowcol nrows ncols nval idxcell rowcols).
+Proof.
+  intros nrows ncols nval idxcell rowcols Hr Hc Hg Hi Ho. unfold cell2rowcol.
+  apply (post3_safe _ (fun _ => False) (fun _ => False) (fun _ _ => True)).
+  apply post3_finish. eapply post3_weaken.
+  { apply (forZ_inv3 (fun rc => Zlen rc = 2 * nval) (fun _ _ => True)); auto.
+    intros i rc Hj I1. acc3.
+    rewrite chk64_ok' by (unfold MAX64 in *; nia). cbn [bindr].
+    destruct ((_ <? 0) || (_ <=? _)) eqn:E.
+    - acc3. rewrite (wr_ok "rowcols") by (rewrite Zlen_upd; lia). cbn. now rewrite !Zlen_upd.
+    - zb. assert (0 < ncols) by nia.
+      destruct (getnxy_ok ncols (nth (Z.to_nat i) idxcell 0) ltac:(lia) ltac:(lia))
+        as (nx & ny & G & _).
+      rewrite G. cbn [bindr]. acc3.
+      rewrite (wr_ok "rowcols") by (rewrite Zlen_upd; lia). cbn. now rewrite !Zlen_upd. }
+  all: cbn beta; auto; try (intros; contradiction).
+Qed.
+
+Lemma cell2coord_safe : forall nrows ncols nval idxcell xy,
+  0 <= nrows -> 0 <= ncols -> nrows * ncols <= MAX64 ->
+  Zlen idxcell = nval -> Zlen xy = 2 * nval ->
+  safe (cell2coord nrows ncols nval idxcell xy).
+Proof.
+  intros nrows ncols nval idxcell xy Hr Hc Hg Hi Ho. unfold cell2coord.
+  apply (post3_safe _ (fun _ => False) (fun _ => False) (fun _ _ => True)).
+  apply post3_finish. eapply post3_weaken.
+  { apply (forZ_inv3 (fun o => Zlen o = 2 * nval) (fun _ _ => True)); auto.
+    intros i o Hj I1. acc3.
+    rewrite chk64_ok' by (unfold MAX64 in *; nia). cbn [bindr].
+    destruct ((_ <? 0) || (_ <=? _)) eqn:E.
+    - acc3. rewrite (mark_ok "xycoords") by (rewrite Zlen_upd; lia). cbn. now rewrite !Zlen_upd.
+    - zb. assert (0 < ncols) by nia.
+      destruct (getnxy_ok ncols (nth (Z.to_nat i) idxcell 0) ltac:(lia) ltac:(lia))
+        as (nx & ny & G & _).
+      rewrite G. cbn [bindr]. acc3.
+      rewrite (mark_ok "xycoords") by (rewrite Zlen_upd; lia). cbn. now rewrite !Zlen_upd. }
+  all: cbn beta; auto; try (intros; contradiction).
+Qed.
